@@ -2,6 +2,8 @@ import NfpmModel.Contents
 import NfpmModel.Payload
 import NfpmModel.Version
 import NfpmModel.Merge
+import NfpmModel.Spec.DigestSpec
+import NfpmModel.Spec.ArchiveSpec
 /-
   Wire format shared by the driver and the Go harness: one request per line,
   space separated tokens; byte strings are lower-case hex ("-" = empty),
@@ -235,5 +237,74 @@ def pVInfo : P VInfo := do
 
 def showBytesList (l : List Bytes) : String :=
   s!"{l.length}" ++ String.join (l.map (fun b => " " ++ hex b))
+
+def pOptBytes : P (Option Bytes) := do
+  match (← tok) with
+  | "none" => pure none
+  | "some" => do let b ← pBytes; pure (some b)
+  | t => throw s!"bad option {t}"
+
+def pOptNat : P (Option Nat) := do
+  match (← tok) with
+  | "none" => pure none
+  | "some" => do let b ← pNat; pure (some b)
+  | t => throw s!"bad option {t}"
+
+def pSMember : P Spec.SMember := do
+  let name ← pBytes
+  let kind ← pNat
+  let mode ← pNat
+  let mtime ← pInt
+  let size ← pNat
+  let link ← pBytes
+  let bodyLen ← pNat
+  let md5 ← pBytes
+  let sha1 ← pBytes
+  let sha256 ← pBytes
+  let pax ← pOptBytes
+  pure { name, kind := kind.toUInt8, mode, mtime, size, link, bodyLen, md5, sha1, sha256, pax }
+
+def pOptSMember : P (Option Spec.SMember) := do
+  match (← tok) with
+  | "none" => pure none
+  | "some" => do let b ← pSMember; pure (some b)
+  | t => throw s!"bad option {t}"
+
+def pRpmFile : P Spec.RpmFile := do
+  let name ← pBytes
+  let kind ← pNat
+  let ghost ← pBool
+  let sizeTag ← pNat
+  let digestTag ← pBytes
+  let algoTag ← pOptNat
+  let linkto ← pBytes
+  let cpio ← pOptSMember
+  pure { name, kind := kind.toUInt8, ghost, sizeTag, digestTag, algoTag, linkto, cpio }
+
+def pRpmFacts : P Spec.RpmFacts := do
+  let sigSha256 ← pOptBytes
+  let headerSha256 ← pBytes
+  let payloadDigest ← pOptBytes
+  let payloadDigestAlgo ← pOptNat
+  let payloadSha256 ← pBytes
+  let sigSize ← pOptNat
+  let headerLen ← pNat
+  let payloadLen ← pNat
+  let sigPayloadSize ← pOptNat
+  let sizeTag ← pOptNat
+  let files ← pList pRpmFile
+  pure { sigSha256, headerSha256, payloadDigest, payloadDigestAlgo, payloadSha256, sigSize, headerLen, payloadLen,
+         sigPayloadSize, sizeTag, files }
+
+def pSegFacts : P Spec.SegFacts := do
+  let aligned ← pBool
+  let hasEndMarker ← pBool
+  let trailingAfterMarker ← pNat
+  let members ← pNat
+  let firstName ← pBytes
+  pure { aligned, hasEndMarker, trailingAfterMarker, members, firstName }
+
+def verdict (v : List String) : String :=
+  if v.isEmpty then "holds" else "violated " ++ String.intercalate ";" (v.map (fun s => s.replace " " "_"))
 
 end Nfpm.Wire
